@@ -35,4 +35,48 @@ theorem appendAndApply_err {s : Store} {fsHas : Nat → Bool} {r : Record} {k : 
         exact absurd (tryCloseFull_err heq) hk
       · simp at h
 
+/-! ### D12: ids with index u64::MAX are refused by `append`/`purge` -/
+
+theorem appendBatch_cons_refused_D12 (fsHas : Nat → Bool) (id : LogId) (p : Bytes)
+    (rest : List (LogId × Bytes)) (s : Store) (seg : Seg) (effs : List Eff)
+    (h : id.index + 1 = U64) :
+    Store.appendBatch fsHas ((id, p) :: rest) s seg effs = (.err .invalidInput, s, effs) := by
+  rw [Store.appendBatch, if_pos h]
+
+theorem appendBatch_cons_small_D12 (fsHas : Nat → Bool) (id : LogId) (p : Bytes)
+    (rest : List (LogId × Bytes)) (s : Store) (seg : Seg) (effs : List Eff)
+    (h : id.index + 1 ≠ U64) :
+    Store.appendBatch fsHas ((id, p) :: rest) s seg effs =
+      match s.appendAndApply fsHas (.append id p) with
+      | (.ok seg', s', e') =>
+        Store.appendBatch (fun i => fsHas i || e'.any (fun e => e == .create i)) rest s' seg' (effs ++ e')
+      | (.err k, s', e') => (.err k, s', effs ++ e')
+      | (.panic m, s', e') => (.panic m, s', effs ++ e') := by
+  rw [Store.appendBatch, if_neg h]
+  rfl
+
+theorem call_purge_refused_D12 (s : Store) (fsHas : Nat → Bool) (upto : LogId)
+    (h : upto.index + 1 = U64) :
+    s.call fsHas (.purge upto) = (.err .invalidInput, s, []) := by
+  simp only [Store.call, if_pos h]
+
+theorem call_purge_small_D12 (s : Store) (fsHas : Nat → Bool) (upto : LogId)
+    (h : upto.index + 1 ≠ U64) :
+    s.call fsHas (.purge upto) =
+      match nextIndexChecked s.st.purged with
+      | none => (.panic "next_log_index overflow (purge)", s, [])
+      | some nxt =>
+        if upto.index < nxt then
+          match lastSegment s.openOffsets with
+          | none => (.panic "last_segment on empty chunk", s, [])
+          | some seg => (.ok seg, s, [])
+        else
+          match s.appendAndApply fsHas (.purgeUpto upto) with
+          | (.ok seg, s', effs) =>
+            let r := popObsolete upto s'.closed
+            (.ok seg, { s' with closed := r.2, removed := s'.removed ++ r.1 }, effs)
+          | other => other := by
+  simp only [Store.call, if_neg h]
+  rfl
+
 end RaftLog
